@@ -70,6 +70,20 @@ func (x *Exec) structuralObligations() []structOb {
 		}
 	}
 	out = append(out, structOb{"pkg/wrappers-immutable", allProps, len(bad) == 0, strings.Join(bad, "; ")})
+	// 2b. the scalar-wrapper constructors are modelled as the term constructors WStr/WBool/WInt/WFloat/WNil:
+	//     each body must be exactly "allocate the box, store the parameter into its only field, return the box"
+	bad = nil
+	for _, name := range []string{"newString", "newBool", "newInt", "newFloat", "newNil"} {
+		fn := x.pkg.Func(name)
+		if fn == nil {
+			bad = append(bad, name+": not found")
+			continue
+		}
+		if why := plainBoxConstructor(fn); why != "" {
+			bad = append(bad, name+": "+why)
+		}
+	}
+	out = append(out, structOb{"pkg/wrapper-constructors", allProps, len(bad) == 0, strings.Join(bad, "; ")})
 	// 3. no package-level variables (determinism of parsing, no hidden shared state for concurrent readers)
 	bad = nil
 	for name, m := range x.pkg.Members {
@@ -157,4 +171,45 @@ func (x *Exec) structuralObligations() []structOb {
 	sort.Strings(bad)
 	out = append(out, structOb{"pkg/interface-methods-under-contract", []string{"C05", "C06"}, len(bad) == 0, "no contract: " + strings.Join(bad, ", ")})
 	return out
+}
+
+// plainBoxConstructor checks that fn is `return &T{f: param}` (or `&T{}` for a parameterless constructor) and
+// nothing else; "" when it is.
+func plainBoxConstructor(fn *ssa.Function) string {
+	if len(fn.Blocks) != 1 {
+		return "body has control flow"
+	}
+	var ins []ssa.Instruction
+	for _, in := range fn.Blocks[0].Instrs {
+		if _, dbg := in.(*ssa.DebugRef); !dbg {
+			ins = append(ins, in)
+		}
+	}
+	want := 2 + 2*len(fn.Params)
+	if len(fn.Params) > 1 || len(ins) != want {
+		return fmt.Sprintf("body is not a plain box construction (%d instructions)", len(ins))
+	}
+	al, ok := ins[0].(*ssa.Alloc)
+	if !ok || !al.Heap {
+		return "does not start with the allocation of the box"
+	}
+	st, ok := al.Type().(*types.Pointer).Elem().Underlying().(*types.Struct)
+	if !ok || st.NumFields() != len(fn.Params) {
+		return "box type is not a struct with one field per parameter"
+	}
+	if len(fn.Params) == 1 {
+		fa, ok := ins[1].(*ssa.FieldAddr)
+		if !ok || fa.X != ssa.Value(al) || fa.Field != 0 {
+			return "second instruction does not address the field of the box"
+		}
+		s, ok := ins[2].(*ssa.Store)
+		if !ok || s.Addr != ssa.Value(fa) || s.Val != ssa.Value(fn.Params[0]) {
+			return "the field is not initialised with the parameter itself"
+		}
+	}
+	r, ok := ins[len(ins)-1].(*ssa.Return)
+	if !ok || len(r.Results) != 1 || r.Results[0] != ssa.Value(al) {
+		return "does not return the box"
+	}
+	return ""
 }
